@@ -293,6 +293,7 @@ class Engine:
         self.post_hook = post
         self.lenient = lenient
         self.exceptions = exceptions
+        self.index_errors = exceptions       # a concrete index / key that a concrete tuple / dict does not hold raises (IndexError / KeyError)
         self.strict_locals = strict_locals and fn is not None
         self.env0 = dict(env or {})
         self.follow = follow
@@ -360,8 +361,14 @@ class Engine:
         """value of an expression whose evaluation may fork (conditional expressions, followed helper calls) -> [(state, value)]"""
         if isinstance(expr, ast.IfExp):
             out = []
-            for truth, st2 in self.decide(expr.test, st):
-                out.extend(self.forking_eval(expr.body if truth else expr.orelse, st2))
+            forks = self.decide(expr.test, st)
+            for truth, st2 in forks:
+                try:
+                    out.extend(self.forking_eval(expr.body if truth else expr.orelse, st2))
+                except Raised as r:
+                    if len(forks) == 1:
+                        raise
+                    self._term.append((st2, "exc", r.name))      # the arm raises: that path ends here, the other arm goes on
             return out
         if _boolean_expr(expr) and not isinstance(expr, ast.Constant):
             # a test kept in a temporary / returned by a predicate helper: the paths part here (the interval is split, the outcome recorded),
@@ -370,7 +377,17 @@ class Engine:
         sites = self._inline_sites(expr, st)
         if not sites:
             return [(st, self.ev(expr, st))]
-        return [(st2, self.ev(expr, st2)) for st2 in self.prefork(sites, st)]
+        forks = self.prefork(sites, st)
+        out = []
+        for st2 in forks:
+            try:
+                out.append((st2, self.ev(expr, st2)))
+            except Raised as r:
+                if len(forks) == 1:
+                    raise
+                # the expression raises on one of the paths its tests / look-ups part (`table[position]` past the end): that path alone
+                self._term.append((st2, "exc", r.name))
+        return out
 
     def _stmt(self, s, st):
         if isinstance(s, ast.Expr) and isinstance(s.value, (ast.Yield, ast.YieldFrom)):
@@ -748,6 +765,9 @@ class Engine:
             return [(bool(v.items), st)]
         if isinstance(v, Opaque) and v.name in ("falsy", "truthy"):
             return [(v.name == "truthy", st)]       # an and / or chain whose value is open but whose truth is not
+        shape = self._param_shape(v)
+        if shape is not None:
+            return self.split(shape, ast.NotEq(), Fraction(0), st)      # `if value:` / `if not value:` is `value != 0`
         if is_str(v):
             from .c12_model import width_bounds
             lo, hi = width_bounds(v, lambda name: None)
@@ -791,8 +811,20 @@ class Engine:
                 return [(same == isinstance(op, (ast.Is, ast.Eq)), st)]
         if isinstance(a, Lit) and isinstance(b, Lit) and isinstance(op, (ast.Eq, ast.NotEq)):
             return [((a.s == b.s) == isinstance(op, ast.Eq), st)]
+        if isinstance(op, (ast.Eq, ast.NotEq)) and (isinstance(a, Lit) != isinstance(b, Lit)) and is_str(a) and is_str(b):
+            # text against a literal of a length the text cannot have (`s == ""` for a line that holds characters): not equal
+            from .c12_model import width_bounds
+            lit, other = (a, b) if isinstance(a, Lit) else (b, a)
+            lo, hi = width_bounds(other, lambda name: None)
+            if len(lit.s) < lo or (hi is not None and len(lit.s) > hi):
+                return [(isinstance(op, ast.NotEq), st)]
         if isinstance(a, Lit) and isinstance(b, Lit) and isinstance(op, (ast.In, ast.NotIn)):
             return [((a.s in b.s) == isinstance(op, ast.In), st)]
+        if isinstance(op, (ast.In, ast.NotIn)) and _concrete_item(a) and isinstance(b, (Tup, DictV)):
+            # a concrete number / text looked up in a collection of concrete numbers / texts (`position in TABLE`, `k in {0: 7, ...}`)
+            keys = [k for k, _ in b.items] if isinstance(b, DictV) else list(b.items)
+            if all(_concrete_item(k) for k in keys):
+                return [(any(_item_key(k) == _item_key(a) for k in keys) == isinstance(op, ast.In), st)]
         if is_num(a) and not is_num(b) and type(op) in _FLIP:
             a, b, op = b, a, _FLIP[type(op)]()
         if is_num(b) and type(op) in _FLIP:
@@ -899,9 +931,9 @@ class Engine:
                     return
                 if isinstance(n, (ast.ListComp, ast.SetComp, ast.DictComp, ast.GeneratorExp)):
                     visit(n.generators[0].iter)
-                    if isinstance(n, (ast.ListComp, ast.GeneratorExp)) and len(n.generators) == 1 and n.generators[0].ifs \
-                            and not n.generators[0].is_async:
-                        cand.append(n)               # a filtered comprehension: its filters may part the paths
+                    if isinstance(n, (ast.ListComp, ast.GeneratorExp)) and len(n.generators) == 1 and not n.generators[0].is_async \
+                            and (n.generators[0].ifs or _boolean_expr(n.elt)):
+                        cand.append(n)               # a filtered comprehension / a comprehension of tests: they may part the paths
                     return
                 if n is not expr and _boolean_expr(n) and not isinstance(n, (ast.Constant, ast.Call)):
                     cand.append(n)                   # a test in value position (an index, an operand, an argument): it parts the paths
@@ -929,7 +961,56 @@ class Engine:
             return cand
         return [n for n in cand if self._is_site(n, st)]
 
+    def _int_digits_site(self, n):
+        """len(str(int(value))) - also spelled len("%d" % value), len(f"{int(value)}"): syntactically a `len` of one argument in which
+        the float parameter occurs"""
+        return self.param is not None and isinstance(n.func, ast.Name) and n.func.id == "len" and len(n.args) == 1 and not n.keywords \
+            and not isinstance(n.args[0], ast.Starred) and any(isinstance(x, ast.Name) and x.id == self.param for x in ast.walk(n.args[0]))
+
+    def _prefork_int_digits(self, node, st):
+        """the number of characters of the integer part of the float parameter: one path per sign and decade of the interval
+        (int() cuts towards zero: |x| < 10 has one digit, a value <= -1 carries its sign)"""
+        from .c12_str import _int_piece
+        key = _memo_key(node)
+        st.env.pop(key, None)
+        ip = _int_piece(self._ev_u(node.args[0], st))
+        if not isinstance(ip, IntOf):
+            return [st]
+        shape = self._param_shape(ip.x)
+        iv = st.iv
+        big = Fraction(10) ** 40
+        if shape is None or iv.lo is None or iv.hi is None or iv.lo < -big or iv.hi > big:
+            return [st]
+        out = []
+        for negative, part in self.split("x", ast.Lt(), Fraction(0), st):
+            signed = negative if shape == "x" else ((not negative) if shape == "-x" else False)
+            cur, k = [part], 1
+            while cur and k <= 41:
+                nxt = []
+                for c in cur:
+                    for truth, c2 in self.split("|x|", ast.Lt(), Fraction(10) ** k, c):
+                        if truth:
+                            if k == 1 and signed:
+                                # -1 < x < 0 is cut to 0: no sign
+                                for t1, c3 in self.split("|x|", ast.Lt(), Fraction(1), c2):
+                                    c3.env[key] = Fraction(1 if t1 else 2)
+                                    out.append(c3)
+                            else:
+                                c2.env[key] = Fraction(k + (1 if signed else 0))
+                                out.append(c2)
+                        else:
+                            nxt.append(c2)
+                cur, k = nxt, k + 1
+            if cur:
+                return [st]
+        return out
+
     def _is_site(self, n, st):
+        if isinstance(n, ast.Call) and self._int_digits_site(n) and self.resolve_callee(n, st) is None:
+            return True
+        if isinstance(n, (ast.ListComp, ast.GeneratorExp)) and not n.generators[0].ifs:
+            # [value >= lim for lim in table]: tests on the float parameter, one per item (`sum(...)` of them counts the limits passed)
+            return self.param is not None and any(isinstance(x, ast.Name) and x.id == self.param for x in ast.walk(n.elt))
         if isinstance(n, ast.Call):
             if isinstance(n.func, ast.Name) and self.inline is not None and self.resolve_callee(n, st) is not None:
                 return True
@@ -969,6 +1050,8 @@ class Engine:
             return self._prefork_comp(node, st)
         if self.lib_name(node.func) in _BISECT and self.resolve_callee(node, st) is None:
             return self._prefork_bisect(node, st)
+        if self._int_digits_site(node) and self.resolve_callee(node, st) is None:
+            return self._prefork_int_digits(node, st)
         key = _memo_key(node)
         st.env.pop(key, None)
         rc = self.resolve_callee(node, st)
@@ -1026,7 +1109,10 @@ class Engine:
                             step.extend(self.decide(f, c2))
                     alive = step
                 for t, c2 in alive:
-                    nxt.append((c2, acc + ((self.ev(node.elt, c2),) if t else ())))
+                    if t and _boolean_expr(node.elt):
+                        nxt.extend((c3, acc + (Const(tv),)) for tv, c3 in self.decide(node.elt, c2))
+                    else:
+                        nxt.append((c2, acc + ((self.ev(node.elt, c2),) if t else ())))
             cur = nxt
             self.nstates += len(cur)
             if self.nstates > self.max_states:
@@ -1154,6 +1240,7 @@ class Engine:
                      follow=self.follow, post=self.post_hook, lenient=self.lenient, exceptions=self.exceptions, strict_locals=self._strict_flag,
                      inline=self.inline, _stack=self._stack + (name,))
         sub._modconst = self._modconst
+        sub.index_errors = self.index_errors
         sub.nstates, sub.max_states = self.nstates, self.max_states
         effects = st.effects + ((name, tuple(args), tuple(sorted(kw.items())), node),)
         cst = State(env, st.iv, st.facts, effects)
@@ -1630,6 +1717,12 @@ class Engine:
                 return Unk("division by zero")
         if isinstance(op, ast.Add):
             if (is_str(a) or isinstance(a, Choice)) and (is_str(b) or isinstance(b, Choice)):
+                # padding written out: `fill * (W - len(t)) + t` is t.rjust(W, fill), `t + fill * (W - len(t))` is t.ljust(W, fill)
+                # (a negative count repeats nothing, a text longer than W is left alone - both as the justification does)
+                for pad, txt, al in ((a, b, ">"), (b, a, "<")):
+                    if isinstance(pad, Rep) and isinstance(pad.s, Lit) and len(pad.s.s) == 1 and is_str(txt) and isinstance(pad.n, Opaque) \
+                            and pad.n.name == "binop:Sub" and as_int(pad.n.args[0]) is not None and pad.n.args[1] == Len(txt):
+                        return make_fmt(Spec(fill=pad.s.s, align=al, width=pad.n.args[0], typ="s"), txt)
                 return cat(a, b)
             if isinstance(a, Tup) and isinstance(b, Tup):
                 return Tup(a.items + b.items)
@@ -1688,13 +1781,15 @@ class Engine:
             try:
                 return base.items[i]
             except IndexError:
-                if self.exceptions:
+                if self.exceptions or self.index_errors:
                     raise Raised("IndexError")
                 return Unk("index out of range")
         if isinstance(base, DictV):
             for k, v in base.items:
                 if k == ix:
                     return v
+            if self.index_errors and (is_num(ix) or isinstance(ix, Lit)) and all(is_num(k) or isinstance(k, (Lit, Const)) for k, _ in base.items):
+                raise Raised("KeyError")             # concrete keys, concrete look-up
             return Unk("dict key")
         if isinstance(base, Lit) and i is not None:
             try:
@@ -1957,6 +2052,9 @@ class Engine:
             return Opaque("partial", (args[0], Tup(tuple(args[1:])), DictV(tuple((Lit(k), v) for k, v in sorted(kw.items())))))
         if lib == "itertools.chain" and not kw and all(isinstance(_as_sequence(a), Tup) for a in args):
             return Tup(tuple(x for a in args for x in _as_sequence(a).items))
+        if lib in ("math.ceil", "math.floor", "math.trunc") and len(args) == 1 and not kw and is_num(args[0]):
+            import math as _m
+            return Fraction(getattr(_m, lib[5:])(args[0]))
         if lib in ("math.fabs",) and len(args) == 1 and not kw:
             return self.b_abs(args, st)
         if lib in _BISECT:
@@ -2061,6 +2159,15 @@ class Engine:
                 return NotImplemented
             return Choice(recv.test, a, b)
         if isinstance(recv, Tup):
+            if meth in ("index", "count") and len(args) == 1 and not kw and all(_concrete_item(x) for x in recv.items + (args[0],)):
+                # a list of concrete numbers / texts / truth values searched for one of them
+                hits = [i for i, x in enumerate(recv.items) if _item_key(x) == _item_key(args[0])]
+                if meth == "count":
+                    return Fraction(len(hits))
+                if hits:
+                    return Fraction(hits[0])
+                if self.exceptions or self.index_errors:
+                    raise Raised("ValueError")
             return NotImplemented
         if meth in ("strip", "lstrip", "rstrip") and len(args) <= 1 and not kw:
             chars = None
@@ -2126,6 +2233,13 @@ class Engine:
             return Unk("join of non-strings")
         if meth in ("lower", "upper") and not args:
             return Lit(getattr(recv.s, meth)()) if isinstance(recv, Lit) else CaseOf(recv, meth)
+        if meth == "startswith" and len(args) == 1 and not kw and is_str(recv):
+            # text whose first characters are literal: a prefix (or a tuple of prefixes) no longer than them is decided
+            pres = [args[0]] if isinstance(args[0], Lit) else (list(args[0].items) if isinstance(args[0], Tup) else None)
+            if pres is not None and all(isinstance(p_, Lit) for p_ in pres):
+                head, whole = _literal_head(recv)
+                if whole or all(len(p_.s) <= len(head) for p_ in pres):
+                    return Const(any(head.startswith(p_.s) for p_ in pres))
         if meth in ("index", "find", "rfind", "rindex", "count", "startswith", "endswith", "isdigit"):
             if isinstance(recv, Lit) and not kw and (not args or isinstance(args[0], Lit)) and all(isinstance(a, Lit) or as_int(a) is not None for a in args):
                 # concrete text, concrete pattern, optional concrete start / end positions
@@ -2229,6 +2343,24 @@ class Engine:
         xs = list(a[0].items) if len(a) == 1 and isinstance(a[0], Tup) else a
         return max(xs) if xs and all(is_num(x) for x in xs) else NotImplemented
 
+    def b_sum(self, a, st):
+        if len(a) in (1, 2) and isinstance(a[0], Tup) and all(is_num(x) or _is_bool(x) for x in a[0].items) and (len(a) == 1 or is_num(a[1])):
+            return sum((x if is_num(x) else Fraction(int(x.value)) for x in a[0].items), a[1] if len(a) == 2 else Fraction(0))
+        return NotImplemented
+
+    def b_dict(self, a, st):
+        if not a:
+            return DictV(())
+        if len(a) == 1 and isinstance(a[0], DictV):
+            return a[0]
+        if len(a) == 1 and isinstance(a[0], Tup) and all(isinstance(p, Tup) and len(p.items) == 2 and (is_num(p.items[0]) or isinstance(p.items[0], Lit))
+                                                         for p in a[0].items):
+            items = []
+            for p in a[0].items:
+                items = [(k, v) for k, v in items if k != p.items[0]] + [(p.items[0], p.items[1])]
+            return DictV(tuple(items))
+        return NotImplemented
+
     def b_divmod(self, a, st):
         if len(a) == 2 and is_num(a[0]) and is_num(a[1]) and a[1] != 0:
             return Tup((Fraction(a[0] // a[1]), a[0] % a[1]))
@@ -2255,6 +2387,8 @@ class Engine:
         return Tup(tuple(reversed(a[0].items))) if len(a) == 1 and isinstance(a[0], Tup) else NotImplemented
 
     def b_tuple(self, a, st):
+        if len(a) == 1 and isinstance(a[0], Lit):
+            return _as_sequence(a[0])                # tuple("+ ,"): the characters
         return a[0] if len(a) == 1 and isinstance(a[0], Tup) else (Tup(()) if not a else NotImplemented)
 
     b_list = b_tuple
@@ -2293,7 +2427,7 @@ class Engine:
 
 
 _BUILTINS = {"divmod", "abs", "round", "int", "float", "str", "len", "min", "max", "range", "enumerate", "zip", "reversed", "tuple", "list", "sorted", "repr",
-             "ord", "chr", "bool"}
+             "ord", "chr", "bool", "sum", "dict"}
 
 
 _MUTATORS = {"append", "extend", "insert", "pop", "remove", "clear", "sort", "reverse", "update", "setdefault", "popitem", "add", "discard",
@@ -2369,6 +2503,29 @@ def _as_sequence(v):
     if isinstance(v, DictV):
         return Tup(tuple(k for k, _ in v.items))
     return v
+
+
+def _concrete_item(v):
+    return is_num(v) or isinstance(v, Lit) or _is_bool(v) or v == Const(None)
+
+
+def _item_key(v):
+    """equality of concrete items as Python has it: True == 1, False == 0"""
+    return Fraction(int(v.value)) if _is_bool(v) else v
+
+
+def _literal_head(v):
+    """(the literal characters a string value begins with, True when they are the whole text)"""
+    if isinstance(v, Lit):
+        return v.s, True
+    if isinstance(v, Cat):
+        head = ""
+        for i, p_ in enumerate(v.parts):
+            if not isinstance(p_, Lit):
+                return head, False
+            head += p_.s
+        return head, True
+    return "", False
 
 
 def _comp_key(node):
